@@ -50,6 +50,15 @@ trait Z: Serialize + DeserializeOwned + PartialEq + Debug + Clone + 'static {
     fn good_key() -> bool {
         false
     }
+    /// used as a map key this value cannot be represented (it is not a bool, integer, char, string
+    /// or unit variant once `Some` and newtype structs are looked through): the conversion must fail
+    fn bad_key_value(&self) -> bool {
+        false
+    }
+    /// some map inside the value has such a key
+    fn contains_bad_key(&self) -> bool {
+        false
+    }
 }
 
 macro_rules! z_int {
@@ -90,6 +99,9 @@ impl Z for bool {
 }
 
 impl Z for f32 {
+    fn bad_key_value(&self) -> bool {
+        true
+    }
     fn ty() -> String {
         "f32".into()
     }
@@ -107,6 +119,9 @@ impl Z for f32 {
 }
 
 impl Z for f64 {
+    fn bad_key_value(&self) -> bool {
+        true
+    }
     fn ty() -> String {
         "f64".into()
     }
@@ -173,6 +188,9 @@ impl Z for String {
 }
 
 impl Z for () {
+    fn bad_key_value(&self) -> bool {
+        true
+    }
     fn ty() -> String {
         "unit".into()
     }
@@ -186,6 +204,9 @@ impl Z for () {
 }
 
 impl Z for CString {
+    fn bad_key_value(&self) -> bool {
+        true
+    }
     fn ty() -> String {
         "cstring".into()
     }
@@ -198,6 +219,12 @@ impl Z for CString {
 }
 
 impl<T: Z> Z for Option<T> {
+    fn bad_key_value(&self) -> bool {
+        self.as_ref().is_none_or(|x| x.bad_key_value())
+    }
+    fn contains_bad_key(&self) -> bool {
+        self.as_ref().is_some_and(|x| x.contains_bad_key())
+    }
     fn ty() -> String {
         format!("option {}", T::ty())
     }
@@ -223,6 +250,12 @@ fn gen_len(rng: &mut Rng, d: usize) -> usize {
 }
 
 impl<T: Z> Z for Vec<T> {
+    fn bad_key_value(&self) -> bool {
+        true
+    }
+    fn contains_bad_key(&self) -> bool {
+        self.iter().any(|x| x.contains_bad_key())
+    }
     fn ty() -> String {
         format!("seq {}", T::ty())
     }
@@ -249,6 +282,8 @@ macro_rules! z_tuple {
             fn gen_(rng: &mut Rng, d: usize) -> Self { ($($t::gen_(rng, d.saturating_sub(1)),)+) }
             fn sval(&self) -> String { format!("tuple {} {}", $n, [$(self.$i.sval()),+].join(" ")) }
             fn in_family() -> bool { $($t::in_family())&&+ }
+            fn bad_key_value(&self) -> bool { true }
+            fn contains_bad_key(&self) -> bool { $(self.$i.contains_bad_key())||+ }
         }
     };
 }
@@ -271,6 +306,12 @@ fn map_sval<'a, K: Z + 'a, V: Z + 'a>(it: impl Iterator<Item = (&'a K, &'a V)>) 
 }
 
 impl<K: Z + Ord, V: Z> Z for BTreeMap<K, V> {
+    fn bad_key_value(&self) -> bool {
+        true
+    }
+    fn contains_bad_key(&self) -> bool {
+        self.iter().any(|(k, v)| k.bad_key_value() || v.contains_bad_key())
+    }
     fn ty() -> String {
         format!("map {} {}", K::ty(), V::ty())
     }
@@ -286,6 +327,12 @@ impl<K: Z + Ord, V: Z> Z for BTreeMap<K, V> {
 }
 
 impl<K: Z + Eq + std::hash::Hash, V: Z> Z for HashMap<K, V> {
+    fn bad_key_value(&self) -> bool {
+        true
+    }
+    fn contains_bad_key(&self) -> bool {
+        self.iter().any(|(k, v)| k.bad_key_value() || v.contains_bad_key())
+    }
     fn ty() -> String {
         format!("map {} {}", K::ty(), V::ty())
     }
@@ -315,6 +362,8 @@ macro_rules! z_struct {
                 format!("struct {} {}", fs.len(), fs.join(" "))
             }
             fn in_family() -> bool { $(<$t as Z>::in_family())&&+ }
+            fn bad_key_value(&self) -> bool { true }
+            fn contains_bad_key(&self) -> bool { $(self.$f.contains_bad_key())||+ }
         }
     };
 }
@@ -329,6 +378,8 @@ macro_rules! z_newtype {
             fn sval(&self) -> String { format!("newtype {}", self.0.sval()) }
             fn none_like() -> bool { <$t as Z>::none_like() }
             fn in_family() -> bool { <$t as Z>::in_family() }
+            fn bad_key_value(&self) -> bool { self.0.bad_key_value() }
+            fn contains_bad_key(&self) -> bool { self.0.contains_bad_key() }
         }
     };
 }
@@ -342,6 +393,8 @@ macro_rules! z_tuple_struct2 {
             fn gen_(rng: &mut Rng, d: usize) -> Self { $name(<$a as Z>::gen_(rng, d.saturating_sub(1)), <$b as Z>::gen_(rng, d.saturating_sub(1))) }
             fn sval(&self) -> String { format!("tuple 2 {} {}", self.0.sval(), self.1.sval()) }
             fn in_family() -> bool { <$a as Z>::in_family() && <$b as Z>::in_family() }
+            fn bad_key_value(&self) -> bool { true }
+            fn contains_bad_key(&self) -> bool { self.0.contains_bad_key() || self.1.contains_bad_key() }
         }
     };
 }
@@ -391,6 +444,21 @@ macro_rules! z_enum {
                     } )*
                 }
             }
+            fn bad_key_value(&self) -> bool {
+                match self {
+                    $( $name::$u => false, )*
+                    #[allow(unreachable_patterns)]
+                    _ => true,
+                }
+            }
+            fn contains_bad_key(&self) -> bool {
+                match self {
+                    $( $name::$u => false, )*
+                    $( $name::$n(a) => a.contains_bad_key(), )*
+                    $( $name::$t(a, b) => a.contains_bad_key() || b.contains_bad_key(), )*
+                    $( $name::$s { $($sf),+ } => false $(|| $sf.contains_bad_key())+, )*
+                }
+            }
             fn in_family() -> bool {
                 true $(&& <$nt as Z>::in_family())* $(&& <$ta as Z>::in_family() && <$tb as Z>::in_family())* $($(&& <$st as Z>::in_family())+)*
             }
@@ -398,9 +466,12 @@ macro_rules! z_enum {
     };
 }
 
-#[derive(Serialize, Deserialize, PartialEq, Debug, Clone)]
+#[derive(Serialize, Deserialize, PartialEq, Eq, PartialOrd, Ord, Debug, Clone)]
 struct UnitS;
 impl Z for UnitS {
+    fn bad_key_value(&self) -> bool {
+        true
+    }
     fn ty() -> String {
         "unitstruct".into()
     }
@@ -415,6 +486,81 @@ impl Z for UnitS {
     }
 }
 
+
+/// a float used as a map key: hand-written impls that emit `serialize_f64` / `serialize_f32`
+macro_rules! float_key {
+    ($name:ident, $f:ty, $ser:ident, $tyname:expr) => {
+        #[derive(Debug, Clone, Copy)]
+        struct $name($f);
+        impl PartialEq for $name {
+            fn eq(&self, o: &Self) -> bool {
+                self.0.to_bits() == o.0.to_bits()
+            }
+        }
+        impl Eq for $name {}
+        impl PartialOrd for $name {
+            fn partial_cmp(&self, o: &Self) -> Option<std::cmp::Ordering> {
+                Some(self.cmp(o))
+            }
+        }
+        impl Ord for $name {
+            fn cmp(&self, o: &Self) -> std::cmp::Ordering {
+                self.0.total_cmp(&o.0)
+            }
+        }
+        impl Serialize for $name {
+            fn serialize<S: serde::Serializer>(&self, s: S) -> Result<S::Ok, S::Error> {
+                s.$ser(self.0)
+            }
+        }
+        impl<'de> Deserialize<'de> for $name {
+            fn deserialize<D: serde::Deserializer<'de>>(d: D) -> Result<Self, D::Error> {
+                <$f>::deserialize(d).map($name)
+            }
+        }
+        impl Z for $name {
+            fn ty() -> String {
+                $tyname.into()
+            }
+            fn gen_(rng: &mut Rng, d: usize) -> Self {
+                match rng.below(4) {
+                    0 => $name(*rng.pick(&[0.0, -0.0, 1.0, 2.0, -3.0, 1e6, 9007199254740992.0, 1e30])),
+                    1 => $name(*rng.pick(&[0.5, -1.5, 1e-3, <$f>::NAN, <$f>::INFINITY, <$f>::NEG_INFINITY, <$f>::MAX, <$f>::MIN_POSITIVE])),
+                    2 => $name(rng.range(-50, 50) as $f),
+                    _ => $name(<$f as Z>::gen_(rng, d)),
+                }
+            }
+            fn sval(&self) -> String {
+                self.0.sval()
+            }
+            fn bad_key_value(&self) -> bool {
+                true
+            }
+        }
+    };
+}
+float_key!(FK64, f64, serialize_f64, "f64");
+float_key!(FK32, f32, serialize_f32, "f32");
+
+#[derive(Serialize, Deserialize, PartialEq, Eq, PartialOrd, Ord, Debug, Clone)]
+struct SK {
+    a: u8,
+}
+impl Z for SK {
+    fn ty() -> String {
+        format!("struct 1 {} u8", hexname("a"))
+    }
+    fn gen_(rng: &mut Rng, d: usize) -> Self {
+        SK { a: u8::gen_(rng, d) }
+    }
+    fn sval(&self) -> String {
+        format!("struct 1 {} {}", hexname("a"), self.a.sval())
+    }
+    fn bad_key_value(&self) -> bool {
+        true
+    }
+}
+
 // ------------------------------------------------------------------ the zoo
 
 z_newtype!(W(i64));
@@ -422,10 +568,26 @@ z_newtype!(WV(Vec<Vec<i64>>));
 z_newtype!(WS(String));
 z_newtype!(WO(Option<i64>));
 z_newtype!(WW(W));
-z_newtype!(WU(()));
+z_newtype!(WU(()), PartialOrd, Ord, Eq);
 z_newtype!(WT((i64, i64)));
 z_newtype!(WK(u16), PartialOrd, Ord, Eq, Hash);
 z_tuple_struct2!(T2(i64, String));
+#[derive(Serialize, Deserialize, PartialEq, Eq, PartialOrd, Ord, Debug, Clone)]
+struct T2K(u8, u8);
+impl Z for T2K {
+    fn ty() -> String {
+        "tuple 2 u8 u8".into()
+    }
+    fn gen_(rng: &mut Rng, d: usize) -> Self {
+        T2K(u8::gen_(rng, d), u8::gen_(rng, d))
+    }
+    fn sval(&self) -> String {
+        format!("tuple 2 {} {}", self.0.sval(), self.1.sval())
+    }
+    fn bad_key_value(&self) -> bool {
+        true
+    }
+}
 z_tuple_struct2!(T2b(Option<u8>, Vec<char>));
 z_struct!(S1 { a: i64, b: String, c: bool });
 z_struct!(S2 { x: Option<i32>, y: Vec<u8>, z: (i8, char), f: f32, g: f64 });
@@ -585,8 +747,8 @@ fn run_value<T: Z>(tera: &Tera, x: &T, cross: bool) -> Out {
             let msg = e.to_string();
             out.model.push((format!("ser {sv}"), if msg.contains("map key must be") { "err badkey".into() } else { format!("err {msg}") }, "ser"));
             out.checks += 1;
-            if T::in_family() {
-                out.fails.push(format!("a value of the family was refused: {msg}"));
+            if T::in_family() || !x.contains_bad_key() {
+                out.fails.push(format!("a value without an unrepresentable key was refused: {msg}"));
             }
             // the other construction paths refuse it too (never alter it)
             let fs = catch(std::panic::AssertUnwindSafe(|| Context::from_serialize(&Wrap { v: x }).is_err()));
@@ -600,6 +762,12 @@ fn run_value<T: Z>(tera: &Tera, x: &T, cross: bool) -> Out {
         Ok(Ok(v)) => v,
     };
     out.model.push((format!("ser {sv}"), format!("ok {}", encode(&v)), "ser"));
+    out.checks += 1;
+    if x.contains_bad_key() {
+        // the property: a key that is not a string, integer, char or bool is refused, not altered
+        out.fails.push(format!("a map key that cannot be represented was accepted (altered): {x:?} became {v}"));
+        return out;
+    }
     // 2. the three entry points
     let owned = de_show::<T>(catch(std::panic::AssertUnwindSafe(|| T::deserialize(v.clone()).map_err(|e| e.to_string()))));
     let byref = de_show::<T>(catch(std::panic::AssertUnwindSafe(|| T::deserialize(&v).map_err(|e| e.to_string()))));
@@ -1071,7 +1239,9 @@ fn all_runners() -> Vec<Runner> {
         // correspondence and absence of panics only
         Option<Option<i64>>, Option<()>, Option<UnitS>, Option<WO>, Option<WU>, Vec<Option<Option<bool>>>, WU,
         // keys that are not representable: refused, not altered
-        BTreeMap<(i8, i8), u8>, BTreeMap<Vec<u8>, u8>, BTreeMap<(), u8>, BTreeMap<Option<Option<u8>>, u8>, BTreeMap<CString, u8>, BTreeMap<BTreeMap<u8, u8>, u8>
+        BTreeMap<(i8, i8), u8>, BTreeMap<Vec<u8>, u8>, BTreeMap<(), u8>, BTreeMap<Option<Option<u8>>, u8>, BTreeMap<CString, u8>, BTreeMap<BTreeMap<u8, u8>, u8>,
+        BTreeMap<FK64, u8>, BTreeMap<FK32, String>, BTreeMap<Option<FK64>, u8>, BTreeMap<UnitS, u8>, BTreeMap<SK, u8>, BTreeMap<(u8,), u8>,
+        Vec<BTreeMap<FK64, bool>>, Option<BTreeMap<FK32, u8>>, BTreeMap<String, BTreeMap<FK64, u8>>, BTreeMap<WU, u8>, BTreeMap<T2K, u8>
     ]
 }
 
